@@ -236,7 +236,8 @@ UnansweredEv(e, s) ==
   IN /\ IF lost
           THEN (~Drifted(e) /\ <<e.run, "lost">> \notin seen =>
                   Report("VIOL", e, [fails |-> {"lost"}, how |-> why, noEffect |-> okU, anom |-> e.anom]))
-          ELSE (~Drifted(e) /\ <<e.run, why>> \notin seen =>
+          ELSE (* (after a reported loss the script's later steps may refer to what was lost: not reported again) *)
+               (~Drifted(e) /\ <<e.run, why>> \notin seen /\ <<e.run, "lost">> \notin seen =>
                   Report("DRIFT", e, [fails |-> {why}, tookEffect |-> okA, noEffect |-> okU, anom |-> e.anom]))
      /\ seen' = seen \cup {IF lost THEN <<e.run, "lost">> ELSE <<e.run, why>>}
                      \cup (IF okA \/ okU THEN {} ELSE {<<e.run, "drift">>})
